@@ -44,6 +44,8 @@ def run(ctx):
                     "scan disagree afterwards" % (f.id.split("::")[-1], sorted(ops)), where=f.loc())
     ctx.floor("R1", n, 4, "LpgStore functions changing node property values")
 
+    common.index_move_order(ctx, P, "R1b")
+
     # ---- R2 cache
     qc = P.adt("cache::QueryCache")
     tys = [f[1] for v in qc["variants"] for f in v["fields"] if "LruCache" in f[1]]
